@@ -157,11 +157,17 @@ def vec_random(shapes, count, nops, seed, p_invalid=0.15, max_len=12, start=None
                 if rng.random() < 0.25:
                     k = rng.randrange(m + 1)
                     lines.append(f"extend_boom r{r} {tl([fresh() for _ in range(m)])} {k}"); lens[r] += min(k, m)
+                elif rng.random() < 0.3:
+                    # an iterator whose size_hint promises only its first `lo` items
+                    lines.append(f"extend_lo r{r} {tl([fresh() for _ in range(m)])} {rng.randrange(m + 1)}"); lens[r] += m
                 else:
                     lines.append(f"extend r{r} {tl([fresh() for _ in range(m)])}"); lens[r] += m
             elif op == "collect":
                 m = rng.randrange(5)
-                lines.append(f"collect r{r} {tl([fresh() for _ in range(m)])}"); lens[r] = m
+                if rng.random() < 0.35:
+                    lines.append(f"collect_lo r{r} {tl([fresh() for _ in range(m)])} {rng.randrange(m + 1)}"); lens[r] = m
+                else:
+                    lines.append(f"collect r{r} {tl([fresh() for _ in range(m)])}"); lens[r] = m
             elif op in ("len", "is_empty"):
                 lines.append(f"{op} r{r}")
             elif op == "resize":
@@ -299,6 +305,11 @@ def cap_scenarios(shapes, count, nops, seed):
                             out.append(Scenario(sh, base + [first, second, "caps r0", f"promise r0 {n}", "len r0"], "reserve-twice"))
                     if pre == 0:
                         out.append(Scenario(sh, [f"with_capacity r0 {n}", f"reserve_exact r0 {n // 2}", "reserve r0 1", "caps r0", f"promise r0 {n}", "len r0"], "reserve-twice"))
+        # a request of more than a megabyte per field array (a 2 KiB field x 600 / 1000 elements) is honoured like a small one
+        if sh == "Flat4":
+            for n in (600, 1000):
+                out.append(Scenario(sh, [f"with_capacity r0 {n}", "caps r0", "capacity r0", f"promise r0 {n}", "len r0"], "with_capacity-large"))
+                out.append(Scenario(sh, ["new r0", f"reserve r0 {n}", "caps r0", "capacity r0", f"promise r0 {n}", "len r0"], "reserve-large"))
         # the reserved room is used up by any mix of growing operations, not only by push: reserve(n), grow by k <= n through
         # another operation, then the remaining n - k pushes must not reallocate either
         for pre in (0, 1, 5):
@@ -469,7 +480,7 @@ def iter_scenarios(shapes, L):
                 st = "".join(c + "L" for c in steps)
                 out.append(Scenario(sh, [setup(n), f"itermut r0 {src} {st}", "len r0"], "itermut"))
             # internal iteration that consumes the iterator (fold, rfold, rev().for_each) after a few plain steps
-            for j, (pre, term) in enumerate(itertools.product(("", "F", "B", "FB", "BF", "N"), "XYV")):
+            for j, (pre, term) in enumerate(itertools.product(("", "F", "B", "FB", "BF", "N"), "XYVW")):
                 out.append(Scenario(sh, [setup(n), f"iter r0 {ITER_SOURCES[j % len(ITER_SOURCES)]} {pre}{term}", f"iter r0 {ITER_SOURCES[(j + 3) % len(ITER_SOURCES)]} {pre}L{term}"], "iter-fold"))
                 out.append(Scenario(sh, [setup(n), f"itermut r0 {ITERMUT_SOURCES[j % len(ITERMUT_SOURCES)]} {pre}{term}", "len r0"], "itermut-fold"))
             # adaptor-style consumption (nth / nth_back in range and overshooting, last, count) mixed with plain steps,
@@ -547,7 +558,9 @@ def ptr_scenarios(shapes, L):
                 for target in range(n + 1):
                     d = target - base
                     fams = [[f"add:{d}"] if d >= 0 else [f"sub:{-d}"], [f"offset:{d}"], [f"wadd:{d}"] if d >= 0 else [f"wsub:{-d}"], [f"woffset:{d}"],
-                            [f"add:{n - base}", f"sub:{n - target}"], [f"wadd:{n + 5}", f"wsub:{n + 5 - d}"] if n + 5 - d >= 0 else [f"woffset:{d}"]]
+                            [f"add:{n - base}", f"sub:{n - target}"], [f"wadd:{n + 5}", f"wsub:{n + 5 - d}"] if n + 5 - d >= 0 else [f"woffset:{d}"],
+                            # the wrapping moves accept every count, the one whose negation overflows included
+                            [f"wsub:{2 ** 63}", f"wadd:{2 ** 63}", f"woffset:{d}"], [f"wadd:{2 ** 63}", f"woffset:{d}", f"wsub:{2 ** 63}"]]
                     for fam in fams:
                         st = " ".join(fam)
                         lines.append(f"ptr r0 {src} {cm} {st}")
@@ -701,7 +714,7 @@ def desync_scenarios(shapes, L, thin=False):
         cl = sh not in NOCLONE
         for n in range(L + 1):
             for leaf in range(nl):
-                for what in ("pop", "push", "clear"):
+                for what in ("pop", "push", "clear", "fill"):
                     if what in ("pop", "clear") and n == 0: continue
                     base = [setup(n), f"desync r0 {leaf} {what}"]
                     groups = []
@@ -728,6 +741,7 @@ def desync_scenarios(shapes, L, thin=False):
                         groups.append([f"ptr r0 vec const add:{i} as_ref"] if False else [f"tget r0 slice index {i}"])
                     for g in (["view r0 shared as_slice first"], ["view r0 shared as_slice last"], ["view r0 mut as_mut_slice split_first:rest"], ["view r0 mut as_mut_slice split_last:elem"],
                               ["iter r0 vec.iter " + "F" * (n + 2) + "LH"], ["iter r0 slice.for_ref " + "B" * (n + 2) + "LH"], ["itermut r0 vec.iter_mut " + "FB" * (n + 1)],
+                              ["iter r0 slicemut.iter " + "F" * (n + 2) + "LH"], ["itermut r0 slicemut.iter_mut " + "BF" * (n + 1)], ["iter r0 slicemut.iter.reuse " + "F" * (n + 2)],
                               ["push r0 28"], ["pop r0", "pop r0"], ["clear r0"], ["retain r0 keep=" + "10" * n], ["retain_mut r0 keep=" + "01" * n],
                               ["sort r0 sort_by_key mod=3"], ["sort r0 sort"], [f"apply_index r0 vec {tl(list(reversed(range(n))))}"], ["extend r0 20,21"],
                               [setup(2, "r1", 10), "append r0 r1"], [setup(2, "r1", 10), "append r1 r0"], ["tget r0 vec last"], ["tget r0 slicemut first_mut"],
